@@ -71,6 +71,35 @@ func genPath(rt *rapid.T, maxSeg int) string {
 	for i := range segs {
 		segs[i] = segAlpha[hx.Uniform(rt, len(segAlpha), "seg")]
 	}
+	if hx.Chance(rt, 18, "climb") {
+		// constructed climbs: k names down, then k+j times "..", so that the path ends exactly at
+		// the root (j=0) or exactly one/two levels above it, with '.' and '' sprinkled in and
+		// optionally a name after the climb. Random segments almost never balance like this, and
+		// the depth goes well beyond the random class (a reduction with a fixed-size fast path
+		// has its boundary somewhere there).
+		k := hx.Uniform(rt, 4*maxSeg, "down")
+		j := hx.Uniform(rt, 3, "over")
+		segs = segs[:0]
+		names := []string{"in", "new", "v", "w", "out"}
+		for i := 0; i < k; i++ {
+			segs = append(segs, names[hx.Uniform(rt, len(names), "dn")])
+			if hx.Chance(rt, 10, "dot") {
+				segs = append(segs, []string{".", ""}[hx.Uniform(rt, 2, "dk")])
+			}
+		}
+		for i := 0; i < k+j; i++ {
+			segs = append(segs, "..")
+			if hx.Chance(rt, 6, "dot2") {
+				segs = append(segs, ".")
+			}
+		}
+		if hx.Chance(rt, 35, "tail") {
+			segs = append(segs, []string{"out", "in", "new"}[hx.Uniform(rt, 3, "tn")])
+		}
+		if len(segs) == 0 {
+			segs = append(segs, "..")
+		}
+	}
 	p := strings.Join(segs, "/")
 	// Windows-style spellings: on this platform a backslash is an ordinary character of a name,
 	// so "..\\out\\out" names a node INSIDE the view; a layer that treats it as a separator on the
